@@ -18,26 +18,29 @@ RULE = ('Generated panels (2-6 geos quick / 2-7 thorough, plus 8-20 geos greedy-
         '(1.0, 0.5, 2.0, 1/3). Each returned design of both searches is re-evaluated from the raw frame: |T|, |C|, '
         '|C|/|T| (exact rational, inclusive), share(C)/share(T), treatment share (either documented reading), '
         'required budget (independent closed form / iROAS). A further class places a bound 1e-7..3e-6 (relative) inside the measured value of a design returned by an '
-        'unconstrained run and searches again. Non-trivial: a design was returned and >= 1 specified '
+        'unconstrained run and searches again; another places a share range strictly between the two documented readings '
+        'of a legal treatment group (needs a non-assignable geo and a geo cut by the upper share bound). Non-trivial: a design was returned and >= 1 specified '
         'constraint is binding (the unconstrained design space over the admitted geos holds both satisfying and '
         'violating candidates); distinct by input description.')
 ASSUMPTIONS = ['real-valued bounds: a violation needs to exceed the bound by > 1e-9 relative',
                'an unspecified constraint is never read by the oracle']
 EXHAUSTIVE = {'quick': False, 'thorough': False}
-MINIMA = {'quick': {'near_bound_cases': 50, 'designs_checked': 300, 'distinct_nontrivial': 80, 'on_bound_designs': 20, 'greedy_with_budget': 15},
-          'thorough': {'near_bound_cases': 500, 'designs_checked': 5000, 'distinct_nontrivial': 1000, 'on_bound_designs': 300, 'greedy_with_budget': 200}}
+MINIMA = {'quick': {'share_gap_cases': 8, 'near_bound_cases': 50, 'designs_checked': 300, 'distinct_nontrivial': 80, 'on_bound_designs': 20, 'greedy_with_budget': 15},
+          'thorough': {'share_gap_cases': 80, 'near_bound_cases': 500, 'designs_checked': 5000, 'distinct_nontrivial': 1000, 'on_bound_designs': 300, 'greedy_with_budget': 200}}
 N = {'quick': 384, 'thorough': 3600}
 N_LARGE = {'quick': 16, 'thorough': 120}
 N_NEAR = {'quick': 96, 'thorough': 900}
+N_GAP = {'quick': 48, 'thorough': 400}
 CASE_TIMEOUT = {'quick': 300, 'thorough': 900}
 
 
 def n_cases(tier):
-  return N[tier] + N_LARGE[tier] + N_NEAR[tier]
+  return N[tier] + N_LARGE[tier] + N_NEAR[tier] + N_GAP[tier]
 
 
 def gen_case(tier, seed, idx):
-  kind = 'random' if idx < N[tier] else ('large' if idx < N[tier] + N_LARGE[tier] else 'near')
+  kind = 'random' if idx < N[tier] else ('large' if idx < N[tier] + N_LARGE[tier] else
+                                          'near' if idx < N[tier] + N_LARGE[tier] + N_NEAR[tier] else 'gap')
   return {'tier': tier, 'seed': seed, 'idx': idx, 'kind': kind}
 
 
@@ -102,11 +105,96 @@ def run_near_bound(spec, r, g):
           'case': sl.describe(case2) if violations else None}
 
 
+def run_share_gap(spec, r, g):
+  """Share range placed BETWEEN the two documented readings of a legal treatment group: some geo cannot take part
+  (must be excluded / absent from the table), the largest excludable geo is cut by the upper share bound, and the
+  range (lo, hi) satisfies  s < lo <= s/A <= hi < s/D  for a legal treatment group with share s, A the share of the
+  assignable geos and D that of the admitted ones. Under either documented reading (vs all geos, vs admitted geos)
+  that group is out of range; a denominator that is neither would let it through."""
+  G = r.randrange(4, 8)
+  case = sl.make_case(r, g, G, allow=('size',), elig_mode=r.choice(['none', 'mostly_ctx', 'ctx', 'mixed']), elig_extra='none')
+  ids = [str(i) for i in case['panel']['ids']]
+  rows = dict(case['elig_rows']) if case['elig_rows'] is not None else {gid: 'ctx' for gid in ids}
+  how = r.choice(['x_fixed', 'absent', 'both'])
+  victims = r.sample(ids, 2 if how == 'both' else 1)
+  if how in ('x_fixed', 'both'):
+    rows[victims[0]] = 'x_fixed'
+  if how in ('absent', 'both'):
+    rows.pop(victims[-1], None)
+  case['elig_rows'] = rows
+  kw0 = {k: v for k, v in case['params'].items() if k not in ('treatment_geos_range', 'control_geos_range', 'geo_ratio_tolerance',
+                                                              'volume_ratio_tolerance', 'budget_range', 'n_geos_max',
+                                                              'treatment_share_range')}
+  kw0['n_designs'] = 100000
+  case['params'] = kw0
+  case['preset_geo_index'] = False
+  truth = sl.Truth(case)
+  desc = sl.describe(case, with_frame=False)
+  skip = {'nontrivial': False, 'fp': util.fp(desc), 'classes': ['share-gap-skip'], 'counters': {'share_gap_skipped': 1},
+          'violations': [], 'sample': None}
+  which = r.choice(['exhaustive', 'exhaustive', 'greedy'])
+  first = sl.run_search(case, 'exhaustive')
+  if not first['outcome'].ok or not first['designs']:
+    return skip
+  assignable = sorted(gid for gid, c in truth.row.items() if c != 'x_fixed')
+  A = truth.share_of(assignable)
+  excludable = [gid for gid in assignable if gen_rows_excludable(truth.row[gid])]
+  if not excludable or A >= 1 - 1e-6:
+    return skip
+  big = max(excludable, key=lambda gid: truth.share[gid])
+  rest = [gid for gid in assignable if gid != big]
+  D = truth.share_of(rest)
+  floor = max([truth.share[gid] for gid in rest if gen_rows_excludable(truth.row[gid])] or [0.0])
+  cands = []
+  seen = set()
+  for nd in first['designs']:
+    T = tuple(sorted(nd['t']))
+    if T in seen or big in T or len(T) >= len(rest):
+      continue
+    seen.add(T)
+    s = truth.share_of(T)
+    lo_hi, hi_hi = max(s / A, floor * (1 + 1e-6)), min(s / D, truth.share[big])
+    if hi_hi > lo_hi * (1 + 1e-4) and s / A > s * (1 + 1e-4):
+      cands.append((T, s, lo_hi, hi_hi))
+  if not cands:
+    return skip
+  T, s, lo_hi, hi_hi = r.choice(cands)
+  u = r.choice([0.5, 0.1, 0.9])
+  hi = lo_hi + u * (hi_hi - lo_hi)
+  lo = s + r.choice([0.5, 0.1, 0.9]) * (s / A - s)
+  if not (lo < hi < 1):
+    return skip
+  kw = dict(kw0, treatment_share_range=(lo, hi))
+  case2 = dict(case, params=kw)
+  truth2 = sl.Truth(case2)
+  second = sl.run_search(case2, which)
+  counters = collections.Counter(share_gap_cases=1)
+  violations = []
+  if second['outcome'].ok and second['designs'] is not None:
+    v, _ = sp.c02_clauses(case2, truth2, second, which)
+    for x in v:
+      x['detail'] = '[share range placed between the two documented readings of T=%s] %s' % (list(T), x['detail'])
+    violations += v
+    counters['designs_checked'] += len(second['designs'])
+    counters['share_gap_designs'] += len(second['designs'])
+  d2 = sl.describe(case2, with_frame=False)
+  return {'nontrivial': True, 'fp': util.fp([d2, 'gap']), 'classes': ['share-gap', how, which], 'counters': dict(counters),
+          'violations': violations[:6], 'sample': {'case': d2, 'T': list(T), 'share': s, 'A': A, 'D': D},
+          'case': sl.describe(case2) if violations else None}
+
+
+def gen_rows_excludable(cls):
+  from mmv import gen  # pylint: disable=g-import-not-at-top
+  return gen.ROWS[cls][2] == 1
+
+
 def run_case(spec):
   r, g = util.rngs(PROP, spec['seed'], spec['idx'])
   tier = spec['tier']
   if spec['kind'] == 'near':
     return run_near_bound(spec, r, g)
+  if spec['kind'] == 'gap':
+    return run_share_gap(spec, r, g)
   which_list = ('exhaustive', 'greedy')
   focus = ['budget', 'share', 'ratio', 'volume', 'size', 'budget', None][spec['idx'] % 7]
   if spec['kind'] == 'large':
